@@ -108,6 +108,9 @@ func jobs(id, tier string) []job {
 			if tier == "thorough" && id == "C01" && len(p.root) <= 2 && rn.Type == "float64" {
 				o.WritePairs = true
 			}
+			if id == "C01" && (rn.Type == "float64" || rn.Type == "int32" || tier == "thorough") {
+				o.OpPairs = true
+			}
 			out = append(out, job{runner: rn, root: p.root, opt: o})
 		}
 	}
